@@ -842,7 +842,7 @@ fn any_small_offset() -> DateOffset {
     DateOffset { wday_offset: WeekDayOffset::None, day_offset: o }
 }
 
-//@H props=C01,C04 tier=deep kind=bounded cap=3000 mem=medium bound="day offsets within +-40 days, start offset <= end offset, no weekday offsets" domain="year-less `easter [offset] - easter [offset]` x any Easter date per year (Mar 22 ..= Apr 25) x all dates 1900..9999; callees replaced by their contracts"
+//@H props=C01,C04 tier=thorough kind=bounded cap=3000 mem=medium bound="day offsets within +-40 days, start offset <= end offset, no weekday offsets" domain="year-less `easter [offset] - easter [offset]` x any Easter date per year (Mar 22 ..= Apr 25) x all dates 1900..9999; callees replaced by their contracts"
 #[cfg_attr(kani, kani::proof)]
 #[cfg_attr(kani, kani::unwind(5))]
 #[cfg_attr(kani, kani::stub(crate::utils::dates::easter, easter_model))]
